@@ -34,6 +34,22 @@ def load_known(prop):
     return [k for k in data.get("findings", []) if k.get("property") == prop and k.get("status") == "known"]
 
 
+def _h_seq(data, a, b):
+    """some byte a occurs before some byte b in data (bytes or symbolic bytes)"""
+    from .core import Or, And
+    n = len(data)
+    terms = []
+    for i in range(n):
+        for j in range(i + 1, n):
+            terms.append(And(data[i] == a, data[j] == b))
+    if not terms:
+        return False
+    return Or(*terms)
+
+
+_HELPERS = {"seq": _h_seq, "len": len}
+
+
 def _match_known(known, unit, site, inputs):
     for k in known:
         if not fnmatch.fnmatchcase(unit, k.get("unit", "*")):
@@ -43,7 +59,7 @@ def _match_known(known, unit, site, inputs):
         w = k.get("when")
         if w:
             try:
-                if not eval(w, {"__builtins__": {}}, dict(inputs)):
+                if not eval(w, {"__builtins__": {}}, dict(_HELPERS, **inputs)):
                     continue
             except Exception:
                 continue
@@ -55,7 +71,7 @@ def _sym_pred(k, sym):
     w = k.get("when")
     if not w:
         return True
-    env = {}
+    env = dict(_HELPERS)
     for name, (kind, p) in sym.inputs.items():
         env[name] = p
     return eval(w, {"__builtins__": {}}, env)
